@@ -98,8 +98,11 @@ func (l *localExecutor) Run(task *Task) {
 	task.Unlock()
 }
 
-func (l *localExecutor) depReaders(ctx context.Context, task *Task) ([]sliceio.Reader, error) {
-	in := make([]sliceio.Reader, 0, len(task.Deps))
+func (l *localExecutor) depReaders(ctx context.Context, task *Task) (in []sliceio.Reader, err error) {
+	// Combiners run user code in-line here: a panic must fail the task, not
+	// the process.
+	defer recoverFatal(&err)
+	in = make([]sliceio.Reader, 0, len(task.Deps))
 	for _, dep := range task.Deps {
 		reader := new(multiReader)
 		reader.q = make([]sliceio.Reader, dep.NumTask())
@@ -185,6 +188,7 @@ func (*localExecutor) HandleDebug(*http.ServeMux) {}
 // task buffer. If the output is partitioned, bufferOutput invokes
 // the task's partitioner in order to determine the correct partition.
 func bufferOutput(ctx context.Context, task *Task, out sliceio.Reader) (buf taskBuffer, err error) {
+	defer recoverFatal(&err)
 	if task.NumOut() == 0 {
 		_, err = out.Read(ctx, frame.Empty)
 		if err == sliceio.EOF {
@@ -194,13 +198,6 @@ func bufferOutput(ctx context.Context, task *Task, out sliceio.Reader) (buf task
 	}
 	buf = make(taskBuffer, task.NumPartition)
 	var in frame.Frame
-	defer func() {
-		if e := recover(); e != nil {
-			stack := debug.Stack()
-			err = fmt.Errorf("panic while evaluating slice: %v\n%s", e, string(stack))
-			err = errors.E(err, errors.Fatal)
-		}
-	}()
 	shards := make([]int, *defaultChunksize)
 	for {
 		if in.IsZero() {
@@ -238,6 +235,15 @@ func bufferOutput(ctx context.Context, task *Task, out sliceio.Reader) (buf task
 		}
 	}
 	return buf, nil
+}
+
+// recoverFatal turns a panic (typically in user code) into a fatal error.
+func recoverFatal(err *error) {
+	if e := recover(); e != nil {
+		stack := debug.Stack()
+		*err = fmt.Errorf("panic while evaluating slice: %v\n%s", e, string(stack))
+		*err = errors.E(*err, errors.Fatal)
+	}
 }
 
 type multiReader struct {
